@@ -52,6 +52,27 @@ let handle (line : string) : string =
         | Err -> List.rev ("err" :: acc)
         | OutOfFuel -> List.rev ("fuel" :: acc) in
       String.concat " | " (go 64 (bytes_of_hex hex) [])
+  | "cdec" | "cstream" ->
+      (* cdec <type> <mode> <sizes|-> <weof 0|1> <term eof|ioe> <hex>
+         the decoder on reader objects (Readers.v): mode 0 io.ByteScanner source, 1 NewDecoder's bufio, n a bufio of size n;
+         sizes = the transport's read sizes (comma separated, 0 = empty read; - = everything at once) *)
+      (match split_on ' ' rest with
+       | [ ty; mode; sizes; weof; term; hex ] ->
+           let data = bytes_of_hex hex in
+           let b = { b_data = data; b_sizes = (if sizes = "-" then [] else List.map (fun x -> n_of_int (int_of_string x)) (split_on ',' sizes));
+                     b_weof = (weof = "1"); b_term = (if term = "eof" then EOF else IOE) } in
+           let fin st = Printf.sprintf "left=%d buffered=%d alloc=%d" (List.length st.rd.bs.b_data)
+                          (List.length (rden st.rd) - List.length st.rd.bs.b_data) (int_of_n st.alloc) in
+           if cmd = "cdec" then begin
+             let (r, st) = inst_cdec (coqstr ty) (n_of_int (int_of_string mode)) b in
+             (match r with
+              | Ok (v, _) -> "ok " ^ show_val v
+              | ErrEOF -> "eof" | Err -> "err" | OutOfFuel -> "fuel") ^ " | " ^ fin st
+           end else begin
+             let ((vs, e), st) = inst_cstream (Ext.nat_of_int 64) (coqstr ty) (n_of_int (int_of_string mode)) b in
+             String.concat " | " (List.map show_val vs @ [ (match e with SEOF -> "eof" | SErr -> "err" | SFuel -> "fuel") ]) ^ " | " ^ fin st
+           end
+       | _ -> "driver-error cdec syntax")
   | "wf" -> if inst_wf_b (val_of_string rest) then "wf" else "not-wf"
   | "hello" -> if type_codes_b then "hello ok" else "hello type-codes-differ"
   | _ -> Ext.handle cmd rest
